@@ -35,6 +35,7 @@ class Ctx:
         self.obligation_log = ""
         self.corr_fail = []        # [(name, detail)]  model/impl disagreements
         self.oracle_fail = []      # [(signature, what, replay_obj)]
+        self._sigs = set()
         self.broken = []           # [(name, detail)]  proof obligations / translator
         self.evaluations = 0
         self.distinct = set()
@@ -60,7 +61,10 @@ class Ctx:
             self.corr_fail.append((name, detail))
 
     def oracle_failure(self, signature, what, replay):
-        if len(self.oracle_fail) < 50:
+        # one entry per distinct signature (so that a frequent known finding cannot hide another failure)
+        self.oracle_fail_count = getattr(self, "oracle_fail_count", 0) + 1
+        if signature not in self._sigs and len(self._sigs) < 300:
+            self._sigs.add(signature)
             self.oracle_fail.append((signature, what, replay))
 
     def obligation_broken(self, name, detail):
